@@ -100,6 +100,27 @@ def scan(ctx):
     return extra, stats
 
 
+def harmless(case, impl, model):
+    """the implementation's output differs from the model's (another, equally valid choice of generators /
+    coordinates) while every clause of the property evaluated on the implementation's own output holds, including
+    rank and torsion against the planted values"""
+    obs, cl = split(impl)
+    if not cl or impl.startswith("P") or obs in ("TOP-PANIC", "FORMS-DIFFER", "TRANS-FLAG"):
+        return False
+    t = case.split()
+    kv = dict(x.split("=") for x in cl.split())
+    if t[0] == "hc" and t[3] != "1":
+        # arbitrary matrices with d2*d1 != 0: outside the property's domain; only the clauses that do not depend on
+        # being a complex are meaningful
+        return kv.get("pq") == "1" and kv.get("shape") == "1"
+    if not kv or any(v != "1" for v in kv.values()):
+        return False
+    # rank and torsion must also agree with the model's (they are canonical)
+    m = model.split()
+    o = obs.split()
+    return len(m) >= 2 and len(o) >= 2 and o[0] == m[0] and o[1] == m[1]
+
+
 def run(ctx):
     ctx.equal = equal
     obl = C.coq_obligations(ctx.pid, ["Extract/ExtractC07.vo"])
@@ -109,7 +130,8 @@ def run(ctx):
     corr = C.correspondence(ctx, "c07", nontrivial)
     viol, stats = scan(ctx)
     extra["c07_stats"] = stats
-    return C.finish(ctx, "proof", obl, corr, RULE, extra_cov=extra, assumptions=ASSUME, extra_violations=viol)
+    return C.finish(ctx, "proof", obl, corr, RULE, extra_cov=extra, assumptions=ASSUME, extra_violations=viol,
+                    harmless=harmless)
 
 
 def replay(ctx, payload):
